@@ -16,7 +16,10 @@ package core
 import (
 	"context"
 	"reflect"
+	"runtime"
+	"strings"
 	"sync"
+	"unsafe"
 )
 
 // NextPluginHandler must be one of NextInvokeHandler or NextIOHandler.
@@ -95,6 +98,18 @@ func unusePluginHandlers(manager PluginManager, handlers []PluginHandler, object
 	} else {
 		manager.Unuse(handlers...)
 	}
+}
+
+// sameFunc tells whether two func values with the same code (at pc) are the same handler. The
+// closures that one function literal makes share their code and are different handlers: they
+// are told apart by the function value itself. A method value (x.Handler) is a new function
+// value every time it is written, so for it the code is all there is to compare.
+func sameFunc(a, b PluginHandler, pc uintptr) bool {
+	if (*[2]unsafe.Pointer)(unsafe.Pointer(&a))[1] == (*[2]unsafe.Pointer)(unsafe.Pointer(&b))[1] {
+		return true
+	}
+	f := runtime.FuncForPC(pc)
+	return f != nil && strings.HasSuffix(f.Name(), "-fm")
 }
 
 // samePluginObject reports whether two plugin objects are the same value (false for values
@@ -192,7 +207,7 @@ func (pm *pluginManager) unuse(handler []PluginHandler, object []PluginHandler) 
 				}
 				continue
 			}
-			if hp == reflect.ValueOf(h2).Pointer() {
+			if hp == reflect.ValueOf(h2).Pointer() && sameFunc(h, h2, hp) {
 				h = nil
 				rebuild = true
 				break
